@@ -76,12 +76,13 @@ Proof. exact lambda_parameter_shadows. Qed.
 Print Assumptions c07_lambda_parameter_shadows_only_inside.
 
 (** Non-interference for macros: what a `call` produces depends on the caller
-    only through the macro's definition, the values of the arguments (and of the
-    defaults of omitted parameters), the root globals, the copy depth, the depth
-    limit and the template name - not on the caller's locals, counters, loop
-    variables, block scopes, cycles or other macros. *)
+    only through the macros defined so far (a macro may call another macro or
+    itself), the values of the arguments (and of the defaults of omitted
+    parameters), the root globals, the copy depth, the depth limit and the
+    template name - not on the caller's locals, counters, loop variables, block
+    scopes or cycles. *)
 Theorem c07_call_isolated : forall g ld fuel name args kwargs c1 c2 b,
-  assoc name (macros c1) = assoc name (macros c2) ->
+  macros c1 = macros c2 ->
   root_globals c1 = root_globals c2 ->
   copy_depth c1 = copy_depth c2 ->
   dlimit c1 = dlimit c2 ->
